@@ -49,6 +49,10 @@ impl BitMask {
     pub fn into_iter(self) -> (r: BitMaskIter)
         ensures r.lanes@ == self.lanes@, r.pos@ == 0,
     { unimplemented!() }
+    #[verifier::external_body]
+    pub fn invert(self) -> (r: BitMask)
+        ensures r.lanes@.len() == self.lanes@.len(), forall|k: int| 0 <= k < self.lanes@.len() ==> #[trigger] r.lanes@[k] == !self.lanes@[k],
+    { unimplemented!() }
 }
 pub struct Group {
     pub bytes: Ghost<Seq<u8>>,
@@ -63,6 +67,20 @@ impl Group {
         ensures g.bytes@ == mem_ctrl().subrange(p as int, p + Group::WIDTH),
     { unimplemented!() }
 
+    #[verifier::external_body]
+    pub fn match_empty(&self) -> (r: BitMask)
+        requires self.bytes@.len() == Group::WIDTH,
+        ensures
+            r.lanes@.len() == Group::WIDTH,
+            forall|k: int| #![trigger r.lanes@[k]] #![trigger self.bytes@[k]] 0 <= k < Group::WIDTH ==> r.lanes@[k] == (self.bytes@[k] == 0xFFu8),
+    { unimplemented!() }
+    #[verifier::external_body]
+    pub fn match_empty_or_deleted(&self) -> (r: BitMask)
+        requires self.bytes@.len() == Group::WIDTH,
+        ensures
+            r.lanes@.len() == Group::WIDTH,
+            forall|k: int| #![trigger r.lanes@[k]] #![trigger self.bytes@[k]] 0 <= k < Group::WIDTH ==> r.lanes@[k] == (self.bytes@[k] >= 0x80u8),
+    { unimplemented!() }
     #[verifier::external_body]
     pub fn match_full(&self) -> (r: BitMask)
         requires self.bytes@.len() == Group::WIDTH,
@@ -106,6 +124,23 @@ impl<T> Bucket<T> {
     }
 }
 
+/// R17: the closure handed to fold.  `log` is the sequence of buckets it has been called with, `cur` the
+/// accumulator it returned last: each call must be given the current accumulator.
+pub trait FoldFn<B, T> {
+    spec fn log(&self) -> Seq<int>;
+    spec fn cur(&self) -> B;
+    fn call(&mut self, acc: B, b: Bucket<T>) -> (r: B)
+        requires acc == old(self).cur(),
+        ensures final(self).log() == old(self).log().push(b.ptr as int), r == final(self).cur();
+}
+
+/// the j in [0, hi) with p(j), in ascending order
+pub open spec fn enum_upto(p: spec_fn(int) -> bool, hi: int) -> Seq<int>
+    decreases hi,
+{
+    if hi <= 0 { Seq::empty() } else if p(hi - 1) { enum_upto(p, hi - 1).push(hi - 1) } else { enum_upto(p, hi - 1) }
+}
+
 pub struct RawIterRange<T> {
     pub current_group: BitMaskIter,
     pub data: Bucket<T>,
@@ -126,6 +161,9 @@ impl<T> RawIterRange<T> {
         &&& self.end <= mem_nb()
         &&& (mem_nb() >= w ==> self.end as int % w == 0 && self.next_ctrl <= self.end)
         &&& (mem_nb() < w ==> self.data.ptr == 0 && self.end == mem_nb())
+    }
+    pub open spec fn rem_fn(&self) -> spec_fn(int) -> bool {
+        |j: int| self.rem(j)
     }
     /// the buckets the range will still yield
     pub open spec fn rem(&self, j: int) -> bool {
@@ -149,5 +187,38 @@ impl<T> RawIter<T> {
     pub open spec fn wf(&self) -> bool {
         &&& self.iter.wf()
         &&& self.items as nat == count_upto(|j: int| self.iter.rem(j), mem_nb() + Group::WIDTH)
+    }
+}
+
+/// L8: a tree of repeated splits.  Node(r, a, b): range r was split into the roots of a and b.
+pub enum SplitTree<T> {
+    Leaf(RawIterRange<T>),
+    Node(RawIterRange<T>, Box<SplitTree<T>>, Box<SplitTree<T>>),
+}
+impl<T> SplitTree<T> {
+    pub open spec fn root(&self) -> RawIterRange<T> {
+        match self { SplitTree::Leaf(r) => *r, SplitTree::Node(r, _, _) => *r }
+    }
+    /// every inner node satisfies split's postcondition
+    pub open spec fn valid(&self) -> bool
+        decreases self,
+    {
+        match self {
+            SplitTree::Leaf(_) => true,
+            SplitTree::Node(r, a, b) => {
+                &&& a.valid() && b.valid()
+                &&& forall|j: int| #[trigger] r.rem(j) <==> (a.root().rem(j) || b.root().rem(j))
+                &&& forall|j: int| !(#[trigger] a.root().rem(j) && b.root().rem(j))
+            }
+        }
+    }
+    /// number of leaves that will yield bucket j
+    pub open spec fn leaves_yielding(&self, j: int) -> nat
+        decreases self,
+    {
+        match self {
+            SplitTree::Leaf(r) => if r.rem(j) { 1 } else { 0 },
+            SplitTree::Node(_, a, b) => a.leaves_yielding(j) + b.leaves_yielding(j),
+        }
     }
 }
